@@ -10,7 +10,9 @@ FAMILIES = {
 PROPS = {
     "C20": dict(
         family="conc",
-        theorems=T("C20", "statics_immutable", "unsafe_calls_empty"),  # extended below as the proofs land
+        theorems=T("C20", "statics_immutable", "unsafe_calls_empty", "step_frame", "own_step_local", "shared_unchanged", "others_private_unchanged",
+                   "schedule_independent", "schedule_independent_views", "reachable_inv", "never_faults", "alone_is_a_schedule", "initial_good",
+                   "no_locking_needed"),
         # the harness runs up to 8 threads per case: 4 pipelines at a time keep the threads of one case on distinct cores
         slices={"quick": 4, "thorough": 4},
         partial="THIS IS THE PROPERTY WHERE THE THEOREM CARRIES THE LEAST WEIGHT. What is proved is non-interference on the model: in the pool machine of C04/C05, with "
